@@ -1,4 +1,5 @@
 """C05 — records stay in normal form."""
+import copy
 import datetime
 import json
 
@@ -149,11 +150,31 @@ def make_case(ctx, g):
                                 rep = str(v)
                         elif isinstance(v, datetime.datetime):
                             rep = v.isoformat()
-                    err = w.add_attrs(h, [(a, rep)])
-                    flags.add("same-value")
-                    if err is not None or proto.canon_record(rec) != before:
-                        fails.append(Failure("oracle", None, "re-adding the same value for %s is not a no-op (err=%r)" % (a, err),
-                                             {"ops": list(w.ops)}))
+                    if g.chance(0.5):
+                        # the repeated value leads further pairs of the same call: they are handled as if given alone
+                        extras = b.other_attrs(c, g.rng.randint(1, 2))
+                        if g.chance(0.3):
+                            others = [(a2, v2) for (a2, v2) in formal if a2 != a and a2.localpart != "collection"]
+                            if others:
+                                a2, v2 = g.choice(others)
+                                extras.append((a2, different_value(g, v2) if g.chance(0.5) else v2))
+                        twin = copy.deepcopy(rec)
+                        try:
+                            twin.add_attributes(list(extras))
+                            err2 = None
+                        except Exception as e:   # noqa: BLE001
+                            err2 = e
+                        err = w.add_attrs(h, [(a, rep)] + list(extras))
+                        flags.add("same-value-then-more")
+                        if type(err) is not type(err2) or proto.canon_record(rec) != proto.canon_record(twin):
+                            fails.append(Failure("oracle", None, "pairs after a repeated value of %s are not handled as when given alone "
+                                                 "(err=%r, alone=%r)" % (a, err, err2), {"ops": list(w.ops)}))
+                    else:
+                        err = w.add_attrs(h, [(a, rep)])
+                        flags.add("same-value")
+                        if err is not None or proto.canon_record(rec) != before:
+                            fails.append(Failure("oracle", None, "re-adding the same value for %s is not a no-op (err=%r)" % (a, err),
+                                                 {"ops": list(w.ops)}))
         w.obs_rec(h)
     # entry-path independence: typed literal vs direct value
     if g.chance(0.5) and scopes:
